@@ -4,6 +4,18 @@ NOTES = ("All checks are driven by bin/check; the TLA+ specification lives in sp
          "(its go.mod is generated from /repo/go.mod with replace => /repo, so every run rebuilds from /repo's working tree). "
          "Known findings are listed in known_findings.json.")
 NA = {}
+# sentences appended to a property's technique for the stages (lib/registry.py) that serve it beyond model checking + S->I replay
+STAGE_TEXT = {
+    "minter-trace": "trace validation (I->S): seeded random executions of the real minter keeper (up to four periods, arbitrary block times, interleaved updates) are checked by TLC against spec/trace/Trace_Minter.tla, which re-uses the actions and invariants of Minter.tla; negative control on every run",
+    "dist-trace": "trace validation (I->S): seeded random executions of the real distributor keeper (up to four sub-distributors over nine accounts, two denominations) checked by TLC against spec/trace/Trace_Distributor.tla (actions and invariants of Distributor.tla); negative control on every run",
+    "vesting-trace": "trace validation (I->S): long seeded random message histories (12-30 steps, 12 addresses, delegations, time steps) recorded from the real message router and checked by TLC against spec/trace/Trace_Vesting.tla, which re-uses the message operators, invariants and action properties of Vesting.tla and compares verdict, full post-state, withdraw response and typed withdrawal events of every step; negative control and per-component diagnosis of a rejected step",
+    "chain-trace": "trace validation (I->S) of the whole application: 8-35 block histories (full-app EndBlocker / BeginBlocker, fees, custom-module messages, governance updates, failed multi-message transactions, export / import) on four-period schedules and three-level distribution chains, checked by TLC against spec/trace/Trace_Chain.tla (actions, invariants and supply action properties of Chain.tla, minter state, every balance, every leftover, supply and mint event compared on every step); negative control and diagnosis",
+    "minter-numeric": "numeric stage: real-magnitude schedules (amounts to 10^27, millisecond times) executed twice with different block cadences on the real keeper; sampled totals, remainder hand-overs and the reported inflation are checked by Apalache as relations over spec/MinterMath.tla at P = 10^18",
+    "vesting-numeric": "numeric stage: TLC enumerates spec/mc/MC_Split (all small splits) and prints the cases in which rounding matters; the harness lifts them to real magnitude (and adds seeded amounts to 10^30 and pool sends with 18-digit free fractions), executes them on the real handlers, and Apalache checks every recorded step against spec/VestingMath.tla at P = 10^18",
+    "split-drift-mc": "TLC checks the schedule drift bound of the split arithmetic (VestingMath.tla) exhaustively at small scale",
+    "dist-huge": "real-magnitude runs of the distributor (amounts to 10^30) with the books and share predicates evaluated on the real state",
+    "chain-replicas": "TLC-generated histories (including failed multi-message transactions) executed through real ABCI with Commit by two OS processes, in-process repetitions, and a replica that is restarted (new application object on the committed store) after every commit",
+}
 DIST_NOTE = ("Bounds: curated hostile configurations (quick) and every single sub-distributor over <=2 ordered sources, any primary, <=2 shares, burn (thorough); "
              "deposits of 3/10 units on one account per block, <=3 blocks, shares in quarters (decimal-exact at P=64, so model and 18-digit code agree exactly). "
              "TLC, the Json module and the harness projection (States/Params queries, bank balances) are trusted.")
@@ -22,7 +34,7 @@ TEXT = {
     },
     "C16": {
         "technique": "TLA+ spec Upgrade.tla: the v1.2.0 upgrade as a function on legacy-format states (LockedPreserved, HistoryPreserved, SolventAfter, AllOrNothing, AccountsKeepAmounts, ParamsPreserved checked by TLC over the enumerated pre-states); every pre-state is written to a real store in the legacy format (v2 proto types, x/params subspaces) and the real migrators and v120 functions are run on it, the complete post-state compared with the model",
-        "level": "Model checking over the pre-upgrade state space (presence / absence of the hard-coded owner, pool and vesting type, locked in {sum-1, sum, sum+1, 2 sum}, sent / withdrawn histories, pre-existing pools with the new names, other owners using the renamed type, lineage traces, shifted accounts of every kind, legacy minter and distributor parameters) with conformance of the real upgrade code on every enumerated pre-state.",
+        "level": "Model checking over the pre-upgrade state space (presence / absence of the hard-coded owner, pool and vesting type, locked in {sum-1, sum, sum+1, 2 sum}, sent / withdrawn histories, pre-existing pools with the new names, other owners using the renamed type, lineage traces, shifted accounts of every kind (including accounts with delegation counters and a sequence number), legacy minter and distributor parameters) with conformance of the real upgrade code on every enumerated pre-state.",
         "note": "Amounts in whole C4E x 10^6; calendar shifts (AddDate) are constants computed for the harness epoch 2030-01-01. The x/upgrade plan machinery, module version map and ICA initialisation are not driven (stated as not covered). TLC, the Json module and the harness projection are trusted.",
     },
     "C01": {
@@ -61,7 +73,7 @@ TEXT = {
         "note": "Bounds as in C02; year = 8 ticks so the real year constant is used by the code. Comparison tolerance 2/P (P=4096) because the model truncates the same rational at 1/P; exact 18-digit agreement is the numeric stage's job. TLC, the Json module and the harness projection are trusted.",
     },
     "C15": {
-        "technique": "TLA+ spec Signature.tla with abstract cryptography (WriteOnce action property, VerifySound invariant checked by TLC); every publish / store / verify transition replayed on the real handlers with generated ECDSA P-256 and RSA-2048 certificates, every single-field mutation of a valid record, and publish/store sequences on equal keys",
+        "technique": "TLA+ spec Signature.tla with abstract cryptography (WriteOnce action property, VerifySound invariant checked by TLC); every publish / store / verify transition replayed on the real handlers with generated ECDSA P-256 and RSA-2048 certificates, every single-field mutation of a valid record, publish/store sequences on equal keys, and publishes under keys that are case / whitespace variants of a used key (VarKeys, concretised adversarially)",
         "level": "Model checking of all message sequences (<= 3/4 messages) over 2 addresses x 2 reference ids x 2 links x 22 signature-record variants, with conformance of the real verification verdict, the echoed fields (compared with the raw stored record) and the raw link / signature store after every transition; the write-once predicate is evaluated directly on the real store around every message.",
         "note": "Cryptography is abstract in the model (soundness relative to Go's crypto/x509). The application does not register the cfesignature Msg service with the router, so the handlers are driven through keeper.NewMsgServerImpl. TLC, the Json module and the harness projection are trusted.",
     },
